@@ -460,4 +460,28 @@ fn f(p: ptr<function, array<i32, 4>>, k: u32) -> i32 { (*p)[k] = (*p)[k] * 2; re
   *q = t[0] + t[1] + t[2] + t[3];
   o[0] = *p;
 }"""),
+# several entry points in one module sharing helpers: what an entry point uses (zero-initialised workgroup variables,
+# interface lists) is computed per entry point; a LATER entry point reaches the workgroup variable only through a helper
+# that an EARLIER one already walked (every entry point is run, see checks/c01.py)
+("multi_ep_diamond_workgroup", ["multi-ep", "workgroup", "call"], HDR_U + """
+var<workgroup> wg: array<u32, 4>;
+var<workgroup> wt: u32;
+fn leaf(k: u32) -> u32 { wg[k & 3u] += 1u; wt += 2u; return wg[k & 3u] + wt; }
+fn side_a(k: u32) -> u32 { return leaf(k) + 1u; }
+fn side_b(k: u32) -> u32 { return leaf(k + 1u) * 2u; }
+@compute @workgroup_size(1) fn pass_a() { o[0] = side_a(a[0]); o[1] = side_b(a[1]); }
+@compute @workgroup_size(1) fn pass_b() { o[2] = side_b(a[2]); }
+@compute @workgroup_size(1) fn pass_c() { o[3] = side_a(a[3]) + wt; }
+"""),
+("multi_ep_chain_workgroup", ["multi-ep", "workgroup", "call"], HDR_U + """
+var<workgroup> wg: u32;
+var<workgroup> pv: vec2<u32>;
+fn leaf(k: u32) -> u32 { wg += k; pv.y += 1u; return wg + pv.y + pv.x; }
+fn mid(k: u32) -> u32 { return leaf(k) + 1u; }
+fn top_a(k: u32) -> u32 { return mid(k) + leaf(k); }
+fn top_b(k: u32) -> u32 { var s = 0u; for (var i = 0u; i < 2u; i = i + mid(k) - mid(k) + 1u) { s += 1u; } return s + mid(k); }
+@compute @workgroup_size(1) fn pass_a() { o[0] = top_a(a[0] & 7u); }
+@compute @workgroup_size(1) fn pass_b() { o[1] = top_b(a[1] & 7u); }
+@compute @workgroup_size(1) fn pass_c() { o[2] = mid(a[2] & 7u); }
+"""),
 ]
